@@ -119,11 +119,17 @@ fn find_next<const W: usize>(s: &mut Src, b_lo: usize, b_hi: usize, r_lo: usize,
 }
 
 fn scan<const W: usize>(s: &mut Src, b_lo: usize, b_hi: usize, r_lo: usize, r_hi: usize) {
+    scan_in::<W>(s, b_lo, b_hi, r_lo, r_hi, None)
+}
+
+fn scan_in<const W: usize>(s: &mut Src, b_lo: usize, b_hi: usize, r_lo: usize, r_hi: usize, fixed: Option<(usize, usize)>) {
     let st = setup::<W>(s, b_lo, b_hi, r_lo, r_hi);
     s.assume(st.mapped); // documented: the data address range must be fully mapped
     let (b, r) = (st.b, st.r);
-    let first = s.any_usize();
-    let count = s.any_usize();
+    let (first, count) = match fixed {
+        Some(fc) => fc,
+        None => (s.any_usize(), s.any_usize()),
+    };
     s.assume(first <= st.nfields && count <= st.nfields - first);
     let start = DATA_BASE + (first << r);
     let end = DATA_BASE + ((first + count) << r);
@@ -160,10 +166,27 @@ fn scan<const W: usize>(s: &mut Src, b_lo: usize, b_hi: usize, r_lo: usize, r_hi
     chk!(s, "scan visits only region-aligned addresses of the range whose field is non-zero", all_valid);
     chk!(s, "scan visits regions in strictly ascending address order", order_ok);
     chk!(s, "scan visits exactly as many regions as the naive scan finds", n == want);
-    cov!(s, "three or more regions visited", n >= 3);
-    cov!(s, "range starts and ends mid-byte", b < 3 && (first << b) & 7 != 0 && ((first + count) << b) & 7 != 0 && ((first + count) << b) >> 3 > ((first << b) >> 3) + 1);
-    cov!(s, "empty range", count == 0);
-    cov!(s, "a non-zero region just outside the range is not visited", first > 0 && field(&st.win.0, first - 1, b) != 0 && count > 0);
+    // (covers are emitted unconditionally: a cover in a branch that is dead for one variant counts as vacuity)
+    let sym = fixed.is_none();
+    cov!(s, "three or more regions visited", !sym || n >= 3);
+    cov!(s, "range starts and ends mid-byte", !sym || (b < 3 && (first << b) & 7 != 0 && ((first + count) << b) & 7 != 0 && ((first + count) << b) >> 3 > ((first << b) >> 3) + 1));
+    cov!(s, "empty range", !sym || count == 0);
+    cov!(s, "a non-zero region just outside the range is not visited", !sym || (first > 0 && field(&st.win.0, first - 1, b) != 0 && count > 0));
+    cov!(s, "fixed range: a non-zero region right after the range is not visited", sym || (first + count < st.nfields && field(&st.win.0, first + count, b) != 0));
+}
+
+/// Frame condition on concrete sub-word ranges of one 8-byte metadata word with symbolic contents:
+/// whole-byte sub-ranges that start at an unaligned byte and end before the word boundary, ranges
+/// with bit heads/tails, a same-byte range and the whole word.  Added after seed C22-c (the head
+/// loop of the byte scan running on to the word boundary), which the symbolic-range harness only
+/// answers with resource exhaustion.
+pub fn c22_scan_vo_fixed(s: &mut Src) {
+    const RANGES: [(usize, usize); 6] = [(8, 8), (8, 16), (4, 16), (12, 3), (24, 32), (0, 64)];
+    let mut k = 0;
+    while k < RANGES.len() {
+        scan_in::<8>(s, 0, 0, 3, 3, Some(RANGES[k]));
+        k += 1;
+    }
 }
 
 // VO-bit shape: 1 bit per 8-byte word.  Quick tier: 3-byte bitmap (byte and bit paths).
@@ -201,6 +224,7 @@ harnesses! {
     #[kani::unwind(26)] #[kani::stub(alloc::fmt::format, crate::env::stub_format)] #[kani::stub(mmtk::util::Address::load, crate::env::stub_addr_load)] #[kani::stub(mmtk::util::Address::is_mapped, crate::env::stub_is_mapped)] c22_find_prev_vo; // loops=in_metadata_bytes:5 timeout=900
     #[kani::unwind(26)] #[kani::stub(alloc::fmt::format, crate::env::stub_format)] #[kani::stub(mmtk::util::Address::load, crate::env::stub_addr_load)] #[kani::stub(mmtk::util::Address::is_mapped, crate::env::stub_is_mapped)] c22_find_next_vo; // loops=in_metadata_bytes:5 timeout=900
     #[kani::unwind(26)] #[kani::stub(alloc::fmt::format, crate::env::stub_format)] #[kani::stub(mmtk::util::Address::load, crate::env::stub_addr_load)] #[kani::stub(mmtk::util::Address::is_mapped, crate::env::stub_is_mapped)] c22_scan_vo; // loops=in_metadata_bytes:5+in_metadata_word:10 timeout=900
+    #[kani::unwind(66)] #[kani::stub(alloc::fmt::format, crate::env::stub_format)] #[kani::stub(mmtk::util::Address::load, crate::env::stub_addr_load)] #[kani::stub(mmtk::util::Address::is_mapped, crate::env::stub_is_mapped)] c22_scan_vo_fixed; // loops=in_metadata_bytes:10+in_metadata_word:10 timeout=900
     #[kani::unwind(74)] #[kani::stub(alloc::fmt::format, crate::env::stub_format)] #[kani::stub(mmtk::util::Address::load, crate::env::stub_addr_load)] #[kani::stub(mmtk::util::Address::is_mapped, crate::env::stub_is_mapped)] c22_find_prev_vo_word; // tier=thorough loops=in_metadata_bytes:11 timeout=2400
     #[kani::unwind(74)] #[kani::stub(alloc::fmt::format, crate::env::stub_format)] #[kani::stub(mmtk::util::Address::load, crate::env::stub_addr_load)] #[kani::stub(mmtk::util::Address::is_mapped, crate::env::stub_is_mapped)] c22_find_next_vo_word; // tier=thorough loops=in_metadata_bytes:11 timeout=2400
     #[kani::unwind(74)] #[kani::stub(alloc::fmt::format, crate::env::stub_format)] #[kani::stub(mmtk::util::Address::load, crate::env::stub_addr_load)] #[kani::stub(mmtk::util::Address::is_mapped, crate::env::stub_is_mapped)] c22_scan_vo_word; // tier=wip loops=in_metadata_bytes:11+in_metadata_word:66 timeout=2400
